@@ -20,13 +20,14 @@ func checkC17(r *Run) propMeta {
 		Explanation: "Decides the structural part of the traversal's termination and delivery protocol: (R1) increment-before-submit — every submit of a segment to the pipe is immediately preceded by descentCount.Add(1); the decrement is an unconditional statement of the worker loop after the driver call and before the completion signal; the coordinator leaves its loop only on a closed/cancelled completion channel or a zero count; (R2) every goroutine is counted by the WaitGroup before it starts, signals Done by defer, and is joined on every path to return; the traversal context is cancelled on every return; a failing worker cancels it and records the error, and the function returns the collector's combination; (R3) pipe structure — one FIFO discipline (enqueue/peek/dequeue on consistent deque ends), the send case dequeues exactly once and nothing else dequeues in the main loop, the reader channel is nil exactly when the buffer is empty, the writer receive case is unconditional, both loops honour ctx.Done(), the reader channel is closed by defer; (R4) shared-type lint — a field of a type that travels through the pipe must not be written on the ancestor (trunk) chain without an atomic or a lock while another worker can read it. NOT decided: exactly-once delivery and promptness under all interleavings (schedule-quantified), goroutine leaks inside caller-supplied drivers, the sequential helpers' path sets (value-level).",
 		Assumptions: []string{"channels.Submit/Receive return false on context cancellation (checked structurally: both select on ctx.Done())", "sync.WaitGroup / atomic / context semantics"},
 		TrustedBase: []string{"go/types", "this analyser"}}
-	if err := r.Load("./traversal/...", "./util/channels/...", "./graph/..."); err != nil {
+	if err := r.Load("./traversal/...", "./util/channels/...", "./graph/...", "./ops"); err != nil {
 		r.Fatal("load: %v", err)
 	}
 	checkBreadthFirst(r)
 	checkPipe(r)
 	checkSubmitReceive(r)
 	checkTrunkWrites(r)
+	checkTerminalAfterFilter(r, r.Pkg("ops"))
 	r.Floor("C17-R1-termination", 4)
 	r.Floor("C17-R2-join-cancel", 5)
 	r.Floor("C17-R3-pipe", 9)
